@@ -15,7 +15,7 @@ Proof. unfold upd_fifo, put_item. cbn. apply rst_eta. Qed.
 Definition deliverable (ign : bool) (it : ritem) : Prop :=
   match it with
   | RLine t _ _ _ _ => (forall x, semi_split t = [x] -> x = t) /\ (exists x, semi_split t = [x])
-  | RCpp t _ _ => (forall x, semi_split t = [x] -> x = t) /\ (exists x, semi_split t = [x])
+  | RCpp _ _ _ => True
   | RComment _ _ _ _ => ign = false
   end.
 
@@ -32,9 +32,8 @@ Proof.
   { unfold fuel. cbn [next_raw]. cbn [r_fifo put_item upd_fifo]. rewrite upd_put.
     destruct it as [t lab nm a b|t a b inl|t a b]; [reflexivity| |reflexivity].
     cbn in D. cbn [r_ign put_item upd_fifo]. change (r_ign s) with (r_ign s). now rewrite D. }
-  rewrite NR. destruct it as [t lab nm a b|t a b inl|t a b]; [|reflexivity|].
-  - destruct D as [_ [x Hx]]. eapply split_single; eauto.
-  - destruct D as [_ [x Hx]]. eapply split_single; eauto.
+  rewrite NR. destruct it as [t lab nm a b|t a b inl|t a b]; [|reflexivity|reflexivity].
+  destruct D as [_ [x Hx]]. eapply split_single; eauto.
 Qed.
 
 (* push back a list of items, last read first (what restore_reader does) *)
